@@ -24,6 +24,7 @@ import (
 	"github.com/form3tech-oss/f1/v2/internal/options"
 	"github.com/form3tech-oss/f1/v2/internal/progress"
 	"github.com/form3tech-oss/f1/v2/internal/run"
+	"github.com/form3tech-oss/f1/v2/internal/trigger/api"
 	"github.com/form3tech-oss/f1/v2/internal/verifharness/hlib"
 	"github.com/form3tech-oss/f1/v2/internal/verifshim/vrt"
 	"github.com/form3tech-oss/f1/v2/internal/verifshim/vsync"
@@ -258,6 +259,7 @@ func gatherCounts(reg *prometheus.Registry) counts {
 // complete and at the very end of the run; scripted outcomes per iteration id.
 type runWorld struct {
 	pass, fail uint64
+	requested  uint64 // constant mode: what the (harness's) rate function has asked for so far
 	res        *run.Result
 	reg        *prometheus.Registry
 }
@@ -293,6 +295,16 @@ func wholeRun(mode, rate string, maxDur time.Duration, conc int, bodySleep time.
 			panic(err)
 		}
 		x.reg = b.Reg
+		if mode == "constant" {
+			// the same ticking worker, with a rate function of the harness that counts its requests
+			var perTick int
+			fmt.Sscanf(rate, "%d/", &perTick)
+			unit, _ := time.ParseDuration(rate[strings.Index(rate, "/")+1:])
+			b.Trigger.Trigger = api.NewIterationWorker(unit, func(time.Time) int {
+				x.requested += uint64(perTick)
+				return perTick
+			})
+		}
 		res, err := b.Run.Do(vctx.Background())
 		if err != nil {
 			panic(err)
@@ -324,6 +336,13 @@ func wholeRun(mode, rate string, maxDur time.Duration, conc int, bodySleep time.
 		if md != snap.DroppedIterationCount {
 			o.Fail("C01/metric-counts", "run:dropped", fmt.Sprintf("whole run: exported metric has %d dropped, the result reports %d", md, snap.DroppedIterationCount))
 		}
+		// no more outcomes than requests: every request ends as at most one of started or dropped (the harness's
+		// own rate function counts what was requested, in whatever schedule)
+		if rw.requested > 0 {
+			if total := want.s + want.f + snap.DroppedIterationCount; total > rw.requested {
+				o.Fail("C01/final-counts", "run:more-outcomes-than-requests", fmt.Sprintf("whole run: %d passed + %d failed + %d dropped = %d outcomes, only %d iterations were ever requested: one was counted twice", want.s, want.f, snap.DroppedIterationCount, total, rw.requested))
+			}
+		}
 		o.Sig = fmt.Sprintf("pass=%d fail=%d dropped=%d", want.s, want.f, md)
 	}
 	return vrt.Scenario{Name: name, Body: body, Post: post, Memo: true, Horizon: maxDur + 30*time.Second, MaxSteps: 60000, Delay: true, Setup: func() { vatomict.Active = false }}
@@ -343,6 +362,8 @@ func scenariosFor(tier string) []vrt.Scenario {
 		addRun(2, wholeRun("users", "", 1010*time.Millisecond, 1, 400*time.Millisecond, 0))
 		addRun(1, wholeRun("constant", "2/500ms", 1010*time.Millisecond, 2, 30*time.Millisecond, 3))
 		addRun(1, wholeRun("constant", "2/500ms", 1010*time.Millisecond, 1, 600*time.Millisecond, 0)) // with dropped iterations
+		// the worker becomes idle exactly when the next tick supersedes what is pending
+		addRun(2, wholeRun("constant", "2/500ms", 1260*time.Millisecond, 1, 500*time.Millisecond, 0))
 		// lean: one iteration, the progress tick and the end of the run at the same instant; three deviations
 		addRun(2, wholeRun("constant", "1/1s", 1010*time.Millisecond, 1, 0, 0))
 	} else {
@@ -353,6 +374,8 @@ func scenariosFor(tier string) []vrt.Scenario {
 		addRun(2, wholeRun("constant", "1/500ms", 1500*time.Millisecond, 1, 600*time.Millisecond, 0))
 		addRun(2, wholeRun("users", "", 2010*time.Millisecond, 2, 700*time.Millisecond, 0))
 		addRun(2, wholeRun("constant", "2/500ms", 1010*time.Millisecond, 1, 600*time.Millisecond, 0)) // with dropped iterations
+		addRun(3, wholeRun("constant", "2/500ms", 1260*time.Millisecond, 1, 500*time.Millisecond, 0))
+		addRun(2, wholeRun("constant", "3/500ms", 1260*time.Millisecond, 2, 500*time.Millisecond, 0))
 	}
 	add := func(b int, snaps int, scripts ...string) {
 		sc := component(scripts, snaps)
